@@ -103,27 +103,78 @@ def RExpr.inline : RExpr → RExpr
     | some body => body.subst [a.inline, b.inline, c.inline]
     | none => .call3 f a.inline b.inline c.inline
 
-/-- meaning over ℝ (calls that survived `inline` have no meaning: 0, and `Ok` rejects them) -/
-noncomputable def eval (env : Nat → ℝ) : RExpr → ℝ
+/-- the classical derivative identities of the GSL special functions that stay SYMBOLS (one real argument `X`; a literal
+order is part of the name: `gsl_sf_bessel_Jn#2` is J₂).  `dsym f = some e` reads "f′(X) = e".  These are the NAMED HYPOTHESES
+(`Ident`) of the conditional theorems in DerivGen.lean; nothing here is proved about GSL or about Bessel functions. -/
+def dsym : String → Option RExpr
+  | "gsl_sf_bessel_J0" => some (.neg (.call1 "gsl_sf_bessel_J1" X))
+  | "gsl_sf_bessel_J1" => some (.div (.sub (.call1 "gsl_sf_bessel_J0" X) (.call1 "gsl_sf_bessel_Jn#2" X)) (q 2))
+  | "gsl_sf_bessel_Jn#2" => some (.div (.sub (.call1 "gsl_sf_bessel_J1" X) (.call1 "gsl_sf_bessel_Jn#3" X)) (q 2))
+  | "gsl_sf_bessel_Y0" => some (.neg (.call1 "gsl_sf_bessel_Y1" X))
+  | "gsl_sf_bessel_Y1" => some (.div (.sub (.call1 "gsl_sf_bessel_Y0" X) (.call1 "gsl_sf_bessel_Yn#2" X)) (q 2))
+  | "gsl_sf_bessel_Yn#2" => some (.div (.sub (.call1 "gsl_sf_bessel_Y1" X) (.call1 "gsl_sf_bessel_Yn#3" X)) (q 2))
+  | "gsl_sf_bessel_I0" => some (.call1 "gsl_sf_bessel_I1" X)
+  | "gsl_sf_bessel_I1" => some (.div (.add (.call1 "gsl_sf_bessel_I0" X) (.call1 "gsl_sf_bessel_In#2" X)) (q 2))
+  | "gsl_sf_bessel_In#2" => some (.div (.add (.call1 "gsl_sf_bessel_I1" X) (.call1 "gsl_sf_bessel_In#3" X)) (q 2))
+  | "gsl_sf_bessel_K0" => some (.neg (.call1 "gsl_sf_bessel_K1" X))
+  | "gsl_sf_bessel_K1" => some (.neg (.div (.add (.call1 "gsl_sf_bessel_K0" X) (.call1 "gsl_sf_bessel_Kn#2" X)) (q 2)))
+  | "gsl_sf_bessel_Kn#2" => some (.neg (.div (.add (.call1 "gsl_sf_bessel_K1" X) (.call1 "gsl_sf_bessel_Kn#3" X)) (q 2)))
+  -- scaled: e^x K_n(x)
+  | "gsl_sf_bessel_K0_scaled" => some (.sub (.call1 "gsl_sf_bessel_K0_scaled" X) (.call1 "gsl_sf_bessel_K1_scaled" X))
+  | "gsl_sf_bessel_K1_scaled" =>
+      some (.sub (.call1 "gsl_sf_bessel_K1_scaled" X) (.div (.add (.call1 "gsl_sf_bessel_K0_scaled" X) (.call1 "gsl_sf_bessel_Kn_scaled#2" X)) (q 2)))
+  | "gsl_sf_bessel_Kn_scaled#2" =>
+      some (.sub (.call1 "gsl_sf_bessel_Kn_scaled#2" X) (.div (.add (.call1 "gsl_sf_bessel_K1_scaled" X) (.call1 "gsl_sf_bessel_Kn_scaled#3" X)) (q 2)))
+  | "gsl_sf_airy_Ai" => some (.call1 "gsl_sf_airy_Ai_deriv" X)
+  | "gsl_sf_airy_Ai_deriv" => some (.mul X (.call1 "gsl_sf_airy_Ai" X))          -- Ai″ = x Ai
+  | "gsl_sf_airy_Bi" => some (.call1 "gsl_sf_airy_Bi_deriv" X)
+  | "gsl_sf_airy_Bi_deriv" => some (.mul X (.call1 "gsl_sf_airy_Bi" X))
+  | "gsl_sf_dawson" => some (.sub (q 1) (.mul (.mul (q 2) X) (.call1 "gsl_sf_dawson" X)))   -- F′ = 1 − 2xF
+  | "gsl_sf_erf_Z" => some (.neg (.mul X (.call1 "gsl_sf_erf_Z" X)))                          -- Z′ = −xZ
+  | "gsl_sf_erf_Q" => some (.neg (.call1 "gsl_sf_erf_Z" X))                                   -- Q′ = −Z
+  | "gsl_sf_hazard" => some (.mul (.sub (.call1 "gsl_sf_hazard" X) X) (.call1 "gsl_sf_hazard" X))   -- h′ = (h − x)h
+  | "gsl_sf_expint_E1" => some (.neg (.div (.exp (.neg X)) X))
+  | "gsl_sf_expint_E2" => some (.neg (.call1 "gsl_sf_expint_E1" X))
+  | "gsl_sf_expint_Ei" => some (.div (.exp X) X)
+  | "gsl_sf_Si" => some (.div (.sin X) X)
+  | "gsl_sf_Ci" => some (.div (.cos X) X)
+  | "gsl_sf_expint_3" => some (.exp (.neg (.mul (sq X) X)))
+  | "gsl_sf_fermi_dirac_1" => some (.log (.add (q 1) (.exp X)))                                -- F₁′ = F₀
+  | "gsl_sf_fermi_dirac_2" => some (.call1 "gsl_sf_fermi_dirac_1" X)
+  | "gsl_sf_fermi_dirac_3half" => some (.call1 "gsl_sf_fermi_dirac_half" X)
+  | "gsl_sf_fermi_dirac_half" => some (.call1 "gsl_sf_fermi_dirac_mhalf" X)
+  | "gsl_sf_gamma" => some (.mul (.call1 "gsl_sf_gamma" X) (.call1 "gsl_sf_psi" X))          -- Γ′ = Γψ
+  | "gsl_sf_psi" => some (.call1 "gsl_sf_psi_1" X)
+  | "gsl_sf_psi_1" => some (.call1 "gsl_sf_psi_n#2" X)
+  | "gsl_sf_psi_n#2" => some (.call1 "gsl_sf_psi_n#3" X)
+  | "gsl_cdf_ugaussian_P" => some (.call1 "gsl_ran_ugaussian_pdf" X)
+  | "gsl_ran_ugaussian_pdf" => some (.neg (.mul X (.call1 "gsl_ran_ugaussian_pdf" X)))       -- φ′ = −xφ
+  | _ => none
+
+def dsymE (f : String) : RExpr := (dsym f).getD (.lit 0 1)
+
+/-- meaning over ℝ under an interpretation `I` of the symbols (calls of two / three arguments that survived `inline`
+have no meaning: 0, and `Ok` rejects them) -/
+noncomputable def eval (I : String → ℝ → ℝ) (env : Nat → ℝ) : RExpr → ℝ
   | .arg i => env i
   | .lit n d => (n : ℝ) / (d : ℝ)
-  | .neg a => - eval env a
-  | .add a b => eval env a + eval env b
-  | .sub a b => eval env a - eval env b
-  | .mul a b => eval env a * eval env b
-  | .div a b => eval env a / eval env b
-  | .sqrt a => Real.sqrt (eval env a)
-  | .exp a => Real.exp (eval env a)
-  | .log a => Real.log (eval env a)
-  | .sin a => Real.sin (eval env a)
-  | .cos a => Real.cos (eval env a)
-  | .ifNe a b t e => if eval env a ≠ eval env b then eval env t else eval env e
-  | .call1 _ _ => 0
+  | .neg a => - eval I env a
+  | .add a b => eval I env a + eval I env b
+  | .sub a b => eval I env a - eval I env b
+  | .mul a b => eval I env a * eval I env b
+  | .div a b => eval I env a / eval I env b
+  | .sqrt a => Real.sqrt (eval I env a)
+  | .exp a => Real.exp (eval I env a)
+  | .log a => Real.log (eval I env a)
+  | .sin a => Real.sin (eval I env a)
+  | .cos a => Real.cos (eval I env a)
+  | .ifNe a b t e => if eval I env a ≠ eval I env b then eval I env t else eval I env e
+  | .call1 f a => I f (eval I env a)
   | .call2 _ _ _ => 0
   | .call3 _ _ _ _ => 0
 
 /-- meaning of a translated expression -/
-noncomputable def evalT (env : Nat → ℝ) (e : RExpr) : ℝ := eval env e.inline
+noncomputable def evalT (I : String → ℝ → ℝ) (env : Nat → ℝ) (e : RExpr) : ℝ := eval I env e.inline
 
 /-- symbolic partial derivative w.r.t. argument i -/
 def diff (i : Nat) : RExpr → RExpr
@@ -140,33 +191,66 @@ def diff (i : Nat) : RExpr → RExpr
   | .sin a => .mul (.cos a) (diff i a)
   | .cos a => .neg (.mul (.sin a) (diff i a))
   | .ifNe a b t e => .ifNe a b (diff i t) (diff i e)
-  | .call1 _ _ => .lit 0 1
+  | .call1 f a => .mul ((dsymE f).subst [a]) (diff i a)      -- chain rule with the identity of f
   | .call2 _ _ _ => .lit 0 1
   | .call3 _ _ _ _ => .lit 0 1
 
+/-- the argument vector with first component x (the symbols have one argument) -/
+def env1 (x : ℝ) : Nat → ℝ := fun k => if k = 0 then x else 0
+
+/-- **named hypothesis**: the derivative identity `dsym f` of the symbol f holds at x under the interpretation I -/
+def Ident (I : String → ℝ → ℝ) (f : String) (x : ℝ) : Prop := HasDerivAt (I f) (eval I (env1 x) (dsymE f)) x
+
 /-- side conditions under which `diff` is the derivative at `env` -/
-def Ok (env : Nat → ℝ) : RExpr → Prop
+def Ok (I : String → ℝ → ℝ) (env : Nat → ℝ) : RExpr → Prop
   | .arg _ => True
   | .lit _ _ => True
-  | .neg a => Ok env a
-  | .add a b => Ok env a ∧ Ok env b
-  | .sub a b => Ok env a ∧ Ok env b
-  | .mul a b => Ok env a ∧ Ok env b
-  | .div a b => Ok env a ∧ Ok env b ∧ eval env b ≠ 0
-  | .sqrt a => Ok env a ∧ eval env a ≠ 0
-  | .exp a => Ok env a
-  | .log a => Ok env a ∧ eval env a ≠ 0
-  | .sin a => Ok env a
-  | .cos a => Ok env a
-  | .ifNe a b t _ => Ok env a ∧ Ok env b ∧ eval env a ≠ eval env b ∧ Ok env t
-  | .call1 _ _ => False
+  | .neg a => Ok I env a
+  | .add a b => Ok I env a ∧ Ok I env b
+  | .sub a b => Ok I env a ∧ Ok I env b
+  | .mul a b => Ok I env a ∧ Ok I env b
+  | .div a b => Ok I env a ∧ Ok I env b ∧ eval I env b ≠ 0
+  | .sqrt a => Ok I env a ∧ eval I env a ≠ 0
+  | .exp a => Ok I env a
+  | .log a => Ok I env a ∧ eval I env a ≠ 0
+  | .sin a => Ok I env a
+  | .cos a => Ok I env a
+  | .ifNe a b t _ => Ok I env a ∧ Ok I env b ∧ eval I env a ≠ eval I env b ∧ Ok I env t
+  | .call1 f a => Ok I env a ∧ (dsym f).isSome = true ∧ Ident I f (eval I env a)
   | .call2 _ _ _ => False
   | .call3 _ _ _ _ => False
 
+theorem eval_subst (I : String → ℝ → ℝ) (env : Nat → ℝ) (σ : List RExpr) (e : RExpr) :
+    eval I env (e.subst σ) = eval I (fun k => eval I env (σ.getD k (.lit 0 1))) e := by
+  induction e with
+  | arg i => simp [RExpr.subst, eval]
+  | lit n d => simp [RExpr.subst, eval]
+  | neg a iha => simp [RExpr.subst, eval, iha]
+  | add a b iha ihb => simp [RExpr.subst, eval, iha, ihb]
+  | sub a b iha ihb => simp [RExpr.subst, eval, iha, ihb]
+  | mul a b iha ihb => simp [RExpr.subst, eval, iha, ihb]
+  | div a b iha ihb => simp [RExpr.subst, eval, iha, ihb]
+  | sqrt a iha => simp [RExpr.subst, eval, iha]
+  | exp a iha => simp [RExpr.subst, eval, iha]
+  | log a iha => simp [RExpr.subst, eval, iha]
+  | sin a iha => simp [RExpr.subst, eval, iha]
+  | cos a iha => simp [RExpr.subst, eval, iha]
+  | ifNe a b t e iha ihb iht ihe => simp [RExpr.subst, eval, iha, ihb, iht, ihe]
+  | call1 f a iha => simp [RExpr.subst, eval, iha]
+  | call2 f a b _ _ => simp [RExpr.subst, eval]
+  | call3 f a b c _ _ _ => simp [RExpr.subst, eval]
+
+theorem env_subst1 (I : String → ℝ → ℝ) (env : Nat → ℝ) (a : RExpr) :
+    (fun k => eval I env ([a].getD k (.lit 0 1))) = env1 (eval I env a) := by
+  funext k
+  cases k with
+  | zero => simp [env1]
+  | succ j => simp [env1, eval]
+
 /-- **soundness of the differentiator** -/
-theorem hasDerivAt_diff (i : Nat) (env : Nat → ℝ) (x0 : ℝ) (e : RExpr) :
-    Ok (Function.update env i x0) e →
-      HasDerivAt (fun t => eval (Function.update env i t) e) (eval (Function.update env i x0) (diff i e)) x0 := by
+theorem hasDerivAt_diff (I : String → ℝ → ℝ) (i : Nat) (env : Nat → ℝ) (x0 : ℝ) (e : RExpr) :
+    Ok I (Function.update env i x0) e →
+      HasDerivAt (fun t => eval I (Function.update env i t) e) (eval I (Function.update env i x0) (diff i e)) x0 := by
   induction e with
   | arg j =>
     intro _
@@ -204,17 +288,25 @@ theorem hasDerivAt_diff (i : Nat) (env : Nat → ℝ) (x0 : ℝ) (e : RExpr) :
   | ifNe a b tE eE iha ihb iht _ =>
     intro h
     obtain ⟨ha, hb, hne, ht⟩ := h
-    have hc : ContinuousAt (fun t => eval (Function.update env i t) a - eval (Function.update env i t) b) x0 :=
+    have hc : ContinuousAt (fun t => eval I (Function.update env i t) a - eval I (Function.update env i t) b) x0 :=
       ((iha ha).continuousAt).sub ((ihb hb).continuousAt)
-    have hne0 : (fun t => eval (Function.update env i t) a - eval (Function.update env i t) b) x0 ≠ 0 := sub_ne_zero.mpr hne
+    have hne0 : (fun t => eval I (Function.update env i t) a - eval I (Function.update env i t) b) x0 ≠ 0 := sub_ne_zero.mpr hne
     have hev := hc.eventually_ne hne0
-    have heq : (fun t => eval (Function.update env i t) (.ifNe a b tE eE)) =ᶠ[nhds x0] (fun t => eval (Function.update env i t) tE) := by
+    have heq : (fun t => eval I (Function.update env i t) (.ifNe a b tE eE)) =ᶠ[nhds x0] (fun t => eval I (Function.update env i t) tE) := by
       filter_upwards [hev] with t ht'
-      have : eval (Function.update env i t) a ≠ eval (Function.update env i t) b := sub_ne_zero.mp ht'
+      have : eval I (Function.update env i t) a ≠ eval I (Function.update env i t) b := sub_ne_zero.mp ht'
       simp only [eval, this, ne_eq, not_false_eq_true, if_true]
     have hd := (iht ht).congr_of_eventuallyEq heq
     simpa only [eval, diff, hne, ne_eq, not_false_eq_true, if_true] using hd
-  | call1 f a _ => intro h; exact h.elim
+  | call1 f a iha =>
+    intro h
+    obtain ⟨ha, _, hid⟩ := h
+    have hA := iha ha
+    have hf : HasDerivAt (I f) (eval I (Function.update env i x0) ((dsymE f).subst [a])) (eval I (Function.update env i x0) a) := by
+      rw [eval_subst, env_subst1]; exact hid
+    have := HasDerivAt.comp x0 hf hA
+    refine this.congr_deriv ?_
+    simp only [eval, diff]
   | call2 f a b _ _ => intro h; exact h.elim
   | call3 f a b c _ _ _ => intro h; exact h.elim
 
